@@ -9,51 +9,63 @@
 // execute, DESIGN 1.4):
 //   claim_run / claim_run_cold(remaining) -> (t, valid, m)  with  valid <= m <= remaining   [proved for all schedules
 //                                             by the Verus unit mpsc_admission: obligations mpsc.v.claim_run(_cold)]
-//   resolve_run(t, valid, m, iter)          takes exactly `valid` items from `iter`, in order, and publishes them
-//                                             [ASSUMED: its body is raw-pointer slot writes]
-// The stubs below are those contracts made executable: claim_run returns ANY triple allowed by its contract
-// (a global budget forces progress after 3 claims so that the loops terminate), resolve_run moves exactly `valid`
-// items into a ghost log.  wait_for_window (parks) returns Ok or Err nondeterministically.
+// The stub below is that contract made executable: claim_run returns ANY (valid, m) allowed by its contract, with
+// consecutive tickets from 0 (a global budget forces progress after 3 claims so that the loops terminate).
+// resolve_run is the REAL function: it runs on the stub chunk table (8 slots) and the harness reads the slots back:
+// values appear SET in ascending ticket order, overshoot tickets are SKIP, nothing else is touched.
+// wait_for_window (parks) returns Ok or Err nondeterministically; waiter registration is stubbed out.
 use super::*;
+use super::super::{bounded, bounded_async, Receiver, AsyncReceiver};
 use crate::error::*;
 use crate::verif_k_stubs::*;
 use std::future::Future;
 use std::task::{Context, Poll};
 
-static mut LOG: [u8; 4] = [0; 4];
-static mut LOGN: usize = 0;
+static mut CURSOR: usize = 0;
 static mut CLAIMS: usize = 0;
 static mut REGS: usize = 0;
 
 pub(crate) fn stub_claim_run<T>(_s: &Shared<T>, remaining: usize) -> (usize, usize, usize) {
   let m: usize = kani::any();
   let valid: usize = kani::any();
-  let t: usize = kani::any();
   kani::assume(valid <= m && m <= remaining);
   unsafe {
     CLAIMS += 1;
     if CLAIMS > 3 { kani::assume(valid == remaining && m == remaining); }
-  }
-  if m == 0 { (0, 0, 0) } else { (t, valid, m) }
-}
-pub(crate) fn stub_resolve_run<T>(_s: &Shared<T>, _t: usize, valid: usize, m: usize, iter: &mut impl Iterator<Item = T>) {
-  assert!(valid <= m, "resolve_run called outside claim_run's contract");
-  let mut k = 0;
-  while k < valid {
-    let item = iter.next().expect("resolve_run: iter shorter than valid");
-    // the payload type of every harness below is u8
-    let b = unsafe { *(&item as *const T as *const u8) };
-    unsafe { LOG[LOGN] = b; LOGN += 1; }
-    std::mem::forget(item);
-    k += 1;
+    // tickets are handed out consecutively from 0 (chunk 0 of the stub table, STUB_SLOTS slots)
+    kani::assume(CURSOR + m <= crate::mpsc::bounded_v3::shared::verif_k_mpsc_shared::STUB_SLOTS);
+    let t = CURSOR;
+    CURSOR += m;
+    if m == 0 { (0, 0, 0) } else { (t, valid, m) }
   }
 }
 pub(crate) fn stub_register_async_send<T>(_s: &Shared<T>, _prev: Option<u64>, _w: std::task::Waker) -> u64 { unsafe { REGS += 1; } 7 }
 pub(crate) fn stub_unregister_async_send<T>(_s: &Shared<T>, _id: u64) {}
 pub(crate) fn stub_wait_for_window<T: Send>(_s: &Sender<T>) -> Result<(), ()> { if kani::any() { Ok(()) } else { Err(()) } }
 
-fn log_is_prefix(input: &[u8; 3], n: usize) -> bool {
-  unsafe { LOGN == n && (n < 1 || LOG[0] == input[0]) && (n < 2 || LOG[1] == input[1]) && (n < 3 || LOG[2] == input[2]) }
+/// number of values published so far (SET slots among the claimed tickets, in ticket order)
+fn published(sh: &Shared<u8>) -> usize {
+  let mut n = 0; let mut t = 0;
+  while t < crate::mpsc::bounded_v3::shared::verif_k_mpsc_shared::STUB_SLOTS {
+    if t < unsafe { CURSOR } && sh.k_slot(t).0 == Shared::<u8>::K_SET { n += 1; }
+    t += 1;
+  }
+  n
+}
+/// the values published so far, read back from the REAL slots in ascending ticket order, are exactly input[..n];
+/// every other claimed ticket is a SKIP tombstone (resolved exactly once), unclaimed slots are untouched
+fn log_is_prefix(sh: &Shared<u8>, input: &[u8; 3], n: usize) -> bool {
+  let mut k = 0; let mut t = 0; let mut ok = true;
+  let cur = unsafe { CURSOR };
+  while t < crate::mpsc::bounded_v3::shared::verif_k_mpsc_shared::STUB_SLOTS {
+    let (st, v) = sh.k_slot(t);
+    if t < cur {
+      if st == Shared::<u8>::K_SET { if k >= 3 || v != Some(input[k.min(2)]) { ok = false; } k += 1; }
+      else if st != Shared::<u8>::K_SKIP { ok = false; }
+    } else if st != Shared::<u8>::K_EMPTY { ok = false; }
+    t += 1;
+  }
+  ok && k == n
 }
 fn is_suffix(v: &Vec<u8>, input: &[u8; 3], from: usize) -> bool {
   if from > 3 || v.len() != 3 - from { return false; }
@@ -76,21 +88,21 @@ fn step_sync_batch(which: u8) {
   let v = vec![input[0], input[1], input[2]];
   match which {
     0 => match tx.send_batch(v) {
-      Ok(n) => { assert!(n == 3 && log_is_prefix(&input, 3)); kani::cover!(true); }
-      Err(e) => { assert!(e.sent <= 3 && log_is_prefix(&input, e.sent) && is_suffix(&e.unsent, &input, e.sent)); kani::cover!(true); }
+      Ok(n) => { assert!(n == 3 && log_is_prefix(&tx.shared, &input, 3)); kani::cover!(true); }
+      Err(e) => { assert!(e.sent <= 3 && log_is_prefix(&tx.shared, &input, e.sent) && is_suffix(&e.unsent, &input, e.sent)); kani::cover!(true); }
     },
     1 => { let mut v = v; match tx.send_batch_mut(&mut v) {
-      Ok(n) => { assert!(n == 3 && log_is_prefix(&input, 3) && v.is_empty()); kani::cover!(true); }
-      Err(SendError::Closed) => { let sent = unsafe { LOGN }; assert!(sent <= 3 && log_is_prefix(&input, sent) && is_suffix(&v, &input, sent)); kani::cover!(true); }
+      Ok(n) => { assert!(n == 3 && log_is_prefix(&tx.shared, &input, 3) && v.is_empty()); kani::cover!(true); }
+      Err(SendError::Closed) => { let sent = published(&tx.shared); assert!(sent <= 3 && log_is_prefix(&tx.shared, &input, sent) && is_suffix(&v, &input, sent)); kani::cover!(true); }
       Err(_) => panic!("unexpected error kind"),
     } },
     2 => match tx.try_send_batch(v) {
-      Ok(n) => { assert!(n == 3 && log_is_prefix(&input, 3)); kani::cover!(true); }
-      Err(e) => { assert!(e.sent < 3 && log_is_prefix(&input, e.sent) && is_suffix(&e.unsent, &input, e.sent)); kani::cover!(true); }
+      Ok(n) => { assert!(n == 3 && log_is_prefix(&tx.shared, &input, 3)); kani::cover!(true); }
+      Err(e) => { assert!(e.sent < 3 && log_is_prefix(&tx.shared, &input, e.sent) && is_suffix(&e.unsent, &input, e.sent)); kani::cover!(true); }
     },
     _ => { let mut v = v; match tx.try_send_batch_mut(&mut v) {
-      Ok(n) => { assert!(n <= 3 && log_is_prefix(&input, n) && is_suffix(&v, &input, n)); kani::cover!(true); }
-      Err(SendError::Closed) => { assert!(log_is_prefix(&input, 0) && is_suffix(&v, &input, 0)); }
+      Ok(n) => { assert!(n <= 3 && log_is_prefix(&tx.shared, &input, n) && is_suffix(&v, &input, n)); kani::cover!(true); }
+      Err(SendError::Closed) => { assert!(log_is_prefix(&tx.shared, &input, 0) && is_suffix(&v, &input, 0)); }
       Err(_) => panic!("unexpected error kind"),
     } },
   }
@@ -109,9 +121,9 @@ fn step_async_batch(which: u8) {
     let mut r = poll_once(f.as_mut(), 0);
     if r.is_pending() { r = poll_once(f.as_mut(), 0); }
     match r {
-      Poll::Ready(Ok(n)) => { assert!(n == 3 && log_is_prefix(&input, 3)); kani::cover!(true); }
-      Poll::Ready(Err(e)) => { assert!(e.sent <= 3 && log_is_prefix(&input, e.sent) && is_suffix(&e.unsent, &input, e.sent)); }
-      Poll::Pending => { let sent = unsafe { LOGN }; assert!(sent < 3 && log_is_prefix(&input, sent)); kani::cover!(true); }
+      Poll::Ready(Ok(n)) => { assert!(n == 3 && log_is_prefix(&tx.shared, &input, 3)); kani::cover!(true); }
+      Poll::Ready(Err(e)) => { assert!(e.sent <= 3 && log_is_prefix(&tx.shared, &input, e.sent) && is_suffix(&e.unsent, &input, e.sent)); }
+      Poll::Pending => { let sent = published(&tx.shared); assert!(sent < 3 && log_is_prefix(&tx.shared, &input, sent)); kani::cover!(true); }
     }
   } else {
     {
@@ -120,19 +132,19 @@ fn step_async_batch(which: u8) {
       let mut r = poll_once(f.as_mut(), 0);
       if r.is_pending() { r = poll_once(f.as_mut(), 0); }
       match r {
-        Poll::Ready(Ok(n)) => { assert!(n == 3 && log_is_prefix(&input, 3)); kani::cover!(true); }
-        Poll::Ready(Err(_)) => { let sent = unsafe { LOGN }; assert!(log_is_prefix(&input, sent)); }
-        Poll::Pending => { let sent = unsafe { LOGN }; assert!(sent < 3 && log_is_prefix(&input, sent)); kani::cover!(true); }
+        Poll::Ready(Ok(n)) => { assert!(n == 3 && log_is_prefix(&tx.shared, &input, 3)); kani::cover!(true); }
+        Poll::Ready(Err(_)) => { let sent = published(&tx.shared); assert!(log_is_prefix(&tx.shared, &input, sent)); }
+        Poll::Pending => { let sent = published(&tx.shared); assert!(sent < 3 && log_is_prefix(&tx.shared, &input, sent)); kani::cover!(true); }
       }
     } // the future is dropped here (cancel safety): the unsent tail must be back in `v`
-    let sent = unsafe { LOGN };
+    let sent = published(&tx.shared);
     assert!(is_suffix(&v, &input, sent));
   }
   std::mem::forget(tx); std::mem::forget(rx);
   kani::cover!(true, "END");
 }
 
-// @obligation id=mpsc.producer.batch.Sender.send_batch props=C01,C02,C03 kind=hist tier=quick bound="bounded(1) with one-slot stub chunks; input [a,b,c] any u8; claim_run/resolve_run replaced by their contracts (every (t,valid,m) with valid<=m<=remaining, forced progress after 3 claims); wait_for_window nondeterministic"
+// @obligation id=mpsc.producer.batch.Sender.send_batch props=C01,C02,C03 kind=hist tier=thorough bound="bounded(1) with one-slot stub chunks; input [a,b,c] any u8; claim_run/resolve_run replaced by their contracts (every (t,valid,m) with valid<=m<=remaining, forced progress after 3 claims); wait_for_window nondeterministic"
 #[kani::proof]
 #[kani::stub(std::thread::current::current, crate::verif_k_stubs::stub_thread_current)]
 #[kani::stub(parking_lot::RawMutex::lock_slow, crate::verif_k_stubs::stub_lock_slow)]
@@ -142,14 +154,13 @@ fn step_async_batch(which: u8) {
 #[kani::stub(crate::mpsc::bounded_v3::shared::Shared::wake_all_receivers, crate::mpsc::bounded_v3::shared::verif_k_mpsc_shared::stub_wake_all)]
 #[kani::stub(crate::mpsc::bounded_v3::shared::Shared::claim_run, stub_claim_run)]
 #[kani::stub(crate::mpsc::bounded_v3::shared::Shared::claim_run_cold, stub_claim_run)]
-#[kani::stub(crate::mpsc::bounded_v3::shared::Shared::resolve_run, stub_resolve_run)]
 #[kani::stub(crate::mpsc::bounded_v3::shared::Shared::register_async_send, stub_register_async_send)]
 #[kani::stub(crate::mpsc::bounded_v3::shared::Shared::unregister_async_send, stub_unregister_async_send)]
 #[kani::stub(Sender::wait_for_window, stub_wait_for_window)]
-#[kani::unwind(8)]
+#[kani::unwind(10)]
 fn ob_mpsc_producer_batch_sender_send_batch() { step_sync_batch(0); }
 
-// @obligation id=mpsc.producer.batch.Sender.send_batch_mut props=C01,C02,C03 kind=hist tier=quick bound="bounded(1) with one-slot stub chunks; input [a,b,c] any u8; claim_run/resolve_run replaced by their contracts (every (t,valid,m) with valid<=m<=remaining, forced progress after 3 claims); wait_for_window nondeterministic"
+// @obligation id=mpsc.producer.batch.Sender.send_batch_mut props=C01,C02,C03 kind=hist tier=thorough bound="bounded(1) with one-slot stub chunks; input [a,b,c] any u8; claim_run/resolve_run replaced by their contracts (every (t,valid,m) with valid<=m<=remaining, forced progress after 3 claims); wait_for_window nondeterministic"
 #[kani::proof]
 #[kani::stub(std::thread::current::current, crate::verif_k_stubs::stub_thread_current)]
 #[kani::stub(parking_lot::RawMutex::lock_slow, crate::verif_k_stubs::stub_lock_slow)]
@@ -159,14 +170,13 @@ fn ob_mpsc_producer_batch_sender_send_batch() { step_sync_batch(0); }
 #[kani::stub(crate::mpsc::bounded_v3::shared::Shared::wake_all_receivers, crate::mpsc::bounded_v3::shared::verif_k_mpsc_shared::stub_wake_all)]
 #[kani::stub(crate::mpsc::bounded_v3::shared::Shared::claim_run, stub_claim_run)]
 #[kani::stub(crate::mpsc::bounded_v3::shared::Shared::claim_run_cold, stub_claim_run)]
-#[kani::stub(crate::mpsc::bounded_v3::shared::Shared::resolve_run, stub_resolve_run)]
 #[kani::stub(crate::mpsc::bounded_v3::shared::Shared::register_async_send, stub_register_async_send)]
 #[kani::stub(crate::mpsc::bounded_v3::shared::Shared::unregister_async_send, stub_unregister_async_send)]
 #[kani::stub(Sender::wait_for_window, stub_wait_for_window)]
-#[kani::unwind(8)]
+#[kani::unwind(10)]
 fn ob_mpsc_producer_batch_sender_send_batch_mut() { step_sync_batch(1); }
 
-// @obligation id=mpsc.producer.batch.Sender.try_send_batch props=C01,C02,C03 kind=hist tier=quick bound="bounded(1) with one-slot stub chunks; input [a,b,c] any u8; claim_run/resolve_run replaced by their contracts (every (t,valid,m) with valid<=m<=remaining, forced progress after 3 claims); wait_for_window nondeterministic"
+// @obligation id=mpsc.producer.batch.Sender.try_send_batch props=C01,C02,C03 kind=hist tier=thorough bound="bounded(1) with one-slot stub chunks; input [a,b,c] any u8; claim_run/resolve_run replaced by their contracts (every (t,valid,m) with valid<=m<=remaining, forced progress after 3 claims); wait_for_window nondeterministic"
 #[kani::proof]
 #[kani::stub(std::thread::current::current, crate::verif_k_stubs::stub_thread_current)]
 #[kani::stub(parking_lot::RawMutex::lock_slow, crate::verif_k_stubs::stub_lock_slow)]
@@ -176,14 +186,13 @@ fn ob_mpsc_producer_batch_sender_send_batch_mut() { step_sync_batch(1); }
 #[kani::stub(crate::mpsc::bounded_v3::shared::Shared::wake_all_receivers, crate::mpsc::bounded_v3::shared::verif_k_mpsc_shared::stub_wake_all)]
 #[kani::stub(crate::mpsc::bounded_v3::shared::Shared::claim_run, stub_claim_run)]
 #[kani::stub(crate::mpsc::bounded_v3::shared::Shared::claim_run_cold, stub_claim_run)]
-#[kani::stub(crate::mpsc::bounded_v3::shared::Shared::resolve_run, stub_resolve_run)]
 #[kani::stub(crate::mpsc::bounded_v3::shared::Shared::register_async_send, stub_register_async_send)]
 #[kani::stub(crate::mpsc::bounded_v3::shared::Shared::unregister_async_send, stub_unregister_async_send)]
 #[kani::stub(Sender::wait_for_window, stub_wait_for_window)]
-#[kani::unwind(8)]
+#[kani::unwind(10)]
 fn ob_mpsc_producer_batch_sender_try_send_batch() { step_sync_batch(2); }
 
-// @obligation id=mpsc.producer.batch.Sender.try_send_batch_mut props=C01,C02,C03 kind=hist tier=quick bound="bounded(1) with one-slot stub chunks; input [a,b,c] any u8; claim_run/resolve_run replaced by their contracts (every (t,valid,m) with valid<=m<=remaining, forced progress after 3 claims); wait_for_window nondeterministic"
+// @obligation id=mpsc.producer.batch.Sender.try_send_batch_mut props=C01,C02,C03 kind=hist tier=thorough bound="bounded(1) with one-slot stub chunks; input [a,b,c] any u8; claim_run/resolve_run replaced by their contracts (every (t,valid,m) with valid<=m<=remaining, forced progress after 3 claims); wait_for_window nondeterministic"
 #[kani::proof]
 #[kani::stub(std::thread::current::current, crate::verif_k_stubs::stub_thread_current)]
 #[kani::stub(parking_lot::RawMutex::lock_slow, crate::verif_k_stubs::stub_lock_slow)]
@@ -193,14 +202,13 @@ fn ob_mpsc_producer_batch_sender_try_send_batch() { step_sync_batch(2); }
 #[kani::stub(crate::mpsc::bounded_v3::shared::Shared::wake_all_receivers, crate::mpsc::bounded_v3::shared::verif_k_mpsc_shared::stub_wake_all)]
 #[kani::stub(crate::mpsc::bounded_v3::shared::Shared::claim_run, stub_claim_run)]
 #[kani::stub(crate::mpsc::bounded_v3::shared::Shared::claim_run_cold, stub_claim_run)]
-#[kani::stub(crate::mpsc::bounded_v3::shared::Shared::resolve_run, stub_resolve_run)]
 #[kani::stub(crate::mpsc::bounded_v3::shared::Shared::register_async_send, stub_register_async_send)]
 #[kani::stub(crate::mpsc::bounded_v3::shared::Shared::unregister_async_send, stub_unregister_async_send)]
 #[kani::stub(Sender::wait_for_window, stub_wait_for_window)]
-#[kani::unwind(8)]
+#[kani::unwind(10)]
 fn ob_mpsc_producer_batch_sender_try_send_batch_mut() { step_sync_batch(3); }
 
-// @obligation id=mpsc.producer.batch.AsyncSender.send_batch props=C01,C02,C03,C06 kind=hist tier=quick bound="bounded(1) with one-slot stub chunks; input [a,b,c] any u8; claim_run/resolve_run replaced by their contracts (every (t,valid,m) with valid<=m<=remaining, forced progress after 3 claims); wait_for_window nondeterministic; future polled up to twice, then dropped"
+// @obligation id=mpsc.producer.batch.AsyncSender.send_batch props=C01,C02,C03,C06 kind=hist tier=thorough bound="bounded(1) with one-slot stub chunks; input [a,b,c] any u8; claim_run/resolve_run replaced by their contracts (every (t,valid,m) with valid<=m<=remaining, forced progress after 3 claims); wait_for_window nondeterministic; future polled up to twice, then dropped"
 #[kani::proof]
 #[kani::stub(std::thread::current::current, crate::verif_k_stubs::stub_thread_current)]
 #[kani::stub(parking_lot::RawMutex::lock_slow, crate::verif_k_stubs::stub_lock_slow)]
@@ -210,14 +218,13 @@ fn ob_mpsc_producer_batch_sender_try_send_batch_mut() { step_sync_batch(3); }
 #[kani::stub(crate::mpsc::bounded_v3::shared::Shared::wake_all_receivers, crate::mpsc::bounded_v3::shared::verif_k_mpsc_shared::stub_wake_all)]
 #[kani::stub(crate::mpsc::bounded_v3::shared::Shared::claim_run, stub_claim_run)]
 #[kani::stub(crate::mpsc::bounded_v3::shared::Shared::claim_run_cold, stub_claim_run)]
-#[kani::stub(crate::mpsc::bounded_v3::shared::Shared::resolve_run, stub_resolve_run)]
 #[kani::stub(crate::mpsc::bounded_v3::shared::Shared::register_async_send, stub_register_async_send)]
 #[kani::stub(crate::mpsc::bounded_v3::shared::Shared::unregister_async_send, stub_unregister_async_send)]
 #[kani::stub(Sender::wait_for_window, stub_wait_for_window)]
-#[kani::unwind(8)]
+#[kani::unwind(10)]
 fn ob_mpsc_producer_batch_async_sender_send_batch() { step_async_batch(0); }
 
-// @obligation id=mpsc.producer.batch.AsyncSender.send_batch_mut props=C01,C02,C03,C06 kind=hist tier=quick bound="bounded(1) with one-slot stub chunks; input [a,b,c] any u8; claim_run/resolve_run replaced by their contracts (every (t,valid,m) with valid<=m<=remaining, forced progress after 3 claims); wait_for_window nondeterministic; future polled up to twice, then dropped"
+// @obligation id=mpsc.producer.batch.AsyncSender.send_batch_mut props=C01,C02,C03,C06 kind=hist tier=thorough bound="bounded(1) with one-slot stub chunks; input [a,b,c] any u8; claim_run/resolve_run replaced by their contracts (every (t,valid,m) with valid<=m<=remaining, forced progress after 3 claims); wait_for_window nondeterministic; future polled up to twice, then dropped"
 #[kani::proof]
 #[kani::stub(std::thread::current::current, crate::verif_k_stubs::stub_thread_current)]
 #[kani::stub(parking_lot::RawMutex::lock_slow, crate::verif_k_stubs::stub_lock_slow)]
@@ -227,9 +234,8 @@ fn ob_mpsc_producer_batch_async_sender_send_batch() { step_async_batch(0); }
 #[kani::stub(crate::mpsc::bounded_v3::shared::Shared::wake_all_receivers, crate::mpsc::bounded_v3::shared::verif_k_mpsc_shared::stub_wake_all)]
 #[kani::stub(crate::mpsc::bounded_v3::shared::Shared::claim_run, stub_claim_run)]
 #[kani::stub(crate::mpsc::bounded_v3::shared::Shared::claim_run_cold, stub_claim_run)]
-#[kani::stub(crate::mpsc::bounded_v3::shared::Shared::resolve_run, stub_resolve_run)]
 #[kani::stub(crate::mpsc::bounded_v3::shared::Shared::register_async_send, stub_register_async_send)]
 #[kani::stub(crate::mpsc::bounded_v3::shared::Shared::unregister_async_send, stub_unregister_async_send)]
 #[kani::stub(Sender::wait_for_window, stub_wait_for_window)]
-#[kani::unwind(8)]
+#[kani::unwind(10)]
 fn ob_mpsc_producer_batch_async_sender_send_batch_mut() { step_async_batch(1); }
